@@ -53,13 +53,27 @@ fn gen_wf_program(r: &mut Rng) -> MProgram {
             wheres.push(MPred::new(&t.name, args));
         }
         let mut fields = vec![];
-        for _ in 0..r.below(3) {
+        for _ in 0..r.below(4) {
             fields.push(match r.below(4) {
                 0 => MTy::Var(0),
                 1 if wi > 0 => MTy::app(&format!("W{}", r.below(wi)), vec![MTy::Var(0)]),
                 2 if wi > 0 => MTy::app(&format!("W{}", r.below(wi)), vec![MTy::nullary(*r.pick(&["A", "B", "C"]))]),
                 _ => MTy::nullary(*r.pick(&["A", "B", "C"])),
             });
+        }
+        // the same field type more than once, before the others
+        if !fields.is_empty() && r.chance(40) {
+            let f = r.pick(&fields).clone();
+            let n = 1 + r.below(2);
+            for _ in 0..n {
+                let pos = r.below(fields.len());
+                fields.insert(pos, f.clone());
+            }
+        }
+        // where-clauses too may repeat
+        if !wheres.is_empty() && r.chance(25) {
+            let w = r.pick(&wheres).clone();
+            wheres.insert(0, w);
         }
         p.structs.push(MStruct { name: format!("W{}", wi), nparams: 1, wheres, fields, ..Default::default() });
     }
@@ -72,7 +86,7 @@ fn gen_wf_program(r: &mut Rng) -> MProgram {
             0 | 1 | 2 => {
                 let mut args = vec![MTy::nullary(*r.pick(&concrete))];
                 args.extend(extra);
-                p.impls.push(MImpl { head: MPred::new(&t.name, args), positive: true, ..Default::default() });
+                p.impls.push(MImpl { head: MPred::new(&t.name, args), positive: true, upstream: r.chance(15), ..Default::default() });
             }
             3 => {
                 let w = format!("W{}", r.below(nw));
@@ -87,7 +101,7 @@ fn gen_wf_program(r: &mut Rng) -> MProgram {
                     }
                     wheres.push(MPred::new(&b.name, wa));
                 }
-                p.impls.push(MImpl { nvars: 1, head: MPred::new(&t.name, args), wheres, positive: true, ..Default::default() });
+                p.impls.push(MImpl { nvars: 1, head: MPred::new(&t.name, args), wheres, positive: true, upstream: r.chance(20), ..Default::default() });
             }
             _ => {
                 if t.nparams == 0 {
@@ -98,7 +112,7 @@ fn gen_wf_program(r: &mut Rng) -> MProgram {
                             wheres.push(MPred::new(&b.name, vec![MTy::Var(0)]));
                         }
                     }
-                    p.impls.push(MImpl { nvars: 1, head: MPred::new(&t.name, vec![MTy::Var(0)]), wheres, positive: true, ..Default::default() });
+                    p.impls.push(MImpl { nvars: 1, head: MPred::new(&t.name, vec![MTy::Var(0)]), wheres, positive: true, upstream: r.chance(20), ..Default::default() });
                 }
             }
         }
